@@ -782,6 +782,34 @@ def j8_heapindex(prog, rep, units=HEAPINDEX_UNITS):
     return n
 
 
+def j9_outputs(prog, rep):
+    """The key-file reader answers success only with both strings present: its `return (0)` is controlled, for each `char **`
+    output, by a test that the string stored there is not NULL ("a value within the documented range": the caller is promised two
+    allocated strings and uses them without looking)."""
+    f = prog.func("aws/aws_readkeys.c", "aws_readkeys")
+    if f is None:
+        raise cdb.AnalysisBroken("anchor missing: aws_readkeys")
+    u = f.unit
+    outs = []
+    for q in f.params:
+        t = u.types.get(q["ty"]) or {}
+        pt = u.types.get(t.get("pointee", "")) or {}
+        if t.get("kind") == "ptr" and pt.get("kind") == "ptr" and (u.types.get(pt.get("pointee", "")) or {}).get("size") == 1:
+            outs.append(("v", q["name"], q["id"]))
+    n = 0
+    for r in f.returns():
+        if not r.kids or norm(r.kid(0)) != ("c", 0):
+            continue
+        gs = [(op, L, R) for cond, truth in f.edge_conds(r) for op, L, R, _, _ in cond_atoms(cond, truth)]
+        for P in outs:
+            n += 1
+            ok = any(op == "!=" and R == ("c", 0) and L in (("*", P), ("[]", P, ("c", 0))) for op, L, R in gs)
+            rep.check(ok, "J9-outputs", "aws_readkeys: success is answered only with *%s present" % P[1], r.where,
+                      "no test `*%s != NULL` controls this return: a key file that lacks that line is accepted and the caller gets a NULL string" % P[1],
+                      function=f.name, construct="output:" + P[1])
+    return n
+
+
 STRING_INPUTS = (("util/hexify.c", "unhexify", 0),)
 
 
@@ -857,6 +885,8 @@ def run(tier):
         if j8_heapindex(prog, rep) < 8:
             rep.defer_broken("J8: fewer than 8 subscripts of allocated arrays found in the address routines")
         j6_eof(prog, rep)
+        if j9_outputs(prog, rep) < 2:
+            rep.defer_broken("J9: aws_readkeys has fewer than two string outputs or no success return")
         # "read only the bytes they were given": nothing released is looked at again (a diagnostic that prints an address string
         # after the string was freed reads memory that is no longer the parser's) -- every path, not only allocation failures
         from . import c14
